@@ -2,3 +2,4 @@ import PydapModel.Generated.Tables
 import PydapModel.Sexp
 import PydapModel.Slice
 import PydapModel.Stream
+import PydapModel.StreamTree
